@@ -470,7 +470,9 @@ impl<'a> Parser<'a> {
         if end > self.b.len() {
             return false;
         }
-        self.s[self.i..end].eq_ignore_ascii_case(kw)
+        // Compare bytes: `end` may fall inside a multi-byte character of the input (`180°`), where a
+        // `str` slice would panic.
+        self.b[self.i..end].eq_ignore_ascii_case(kw.as_bytes())
     }
 
     /// Attempt to parse a sexagesimal literal: hh:mm[:ss[.frac]]
